@@ -321,7 +321,18 @@ def std_trait(engine, st, ty, tyb, tb, method, args, dest_ty):
             return VecV([copy_value(x) for x in inner.items], inner.ty)
         return copy_value(inner)
     if tb == 'Default' and method == 'default':
-        return default_for(engine, ty)
+        try:
+            return default_for(engine, ty)
+        except Inconclusive:
+            # a crate type: inline its (derived or hand-written) Default impl from the dump
+            cands = []
+            for f in engine.prog.by_last.get('default', []):
+                h = engine.prog.impl_header(f) if f.impl_loc else None
+                if h and h[1] == tyb and h[0] in ('derive', 'Default'):
+                    cands.append(f)
+            if len(cands) == 1:
+                return engine.exec_fn(st, cands[0], [])
+            raise
     if tb == 'Try' and method == 'branch':
         o = args[0]
         if isinstance(o, EnumV):
